@@ -329,6 +329,87 @@ def r8(ctx):
               "BlockStore::clear receives offset %s and length %s" % (term_str(off)[:80], term_str(ln)[:120]), key="C01|C01.R8|clear|byte hole")
 
 
+def r8b(ctx):
+    """the two searches clear's hole rests on, DynamicBitfield::index_of(true, p) and
+    last_index_of(true, p), across pages: the page of `p` is searched from p's offset, then the other
+    existing pages in order of distance — keys strictly beyond (below) that page, sorted ascending
+    (descending), each searched from its first (last) bit — and what is returned is
+    page * PAGE + offset for the page that was searched."""
+    rule = "C01.R8"
+    page = const_lookup(ctx, "bitfield::dynamic::DYNAMIC_BITFIELD_PAGE_SIZE")
+    bits = const_lookup(ctx, "bitfield::fixed::FIXED_BITFIELD_BITS_LENGTH")
+    for fn_, fixed, up in ((BF_INDEX_OF, "bitfield::fixed::FixedBitfield::index_of", True), (BF_LAST_INDEX_OF, "bitfield::fixed::FixedBitfield::last_index_of", False)):
+        short = fn_.split("::")[-1]
+        fa = ctx.fn(fn_)
+        if not need(ctx, P, rule, fn_, fa):
+            continue
+        vs = list(bool_switches(fa, lambda o: strip(o) == ("param", "value")))
+        if not need(ctx, P, rule, "%s: branch on `value`" % short, vs):
+            continue
+        tr = vs[0][2]
+        reg = region(fa, tr, avoiding=[vs[0][3]] if vs[0][3] is not None else ())
+        fx = [s_ for s_ in sites(fa, fixed) if s_ in reg and fa.dominates(tr, s_)]
+        rets = []
+        for bb, _, t_ in ret_assigns(fa):
+            if bb in reg and fa.dominates(tr, bb):
+                # `return Some(x)` or `let found = ..; if found.is_some() { return found }`: the Some alternatives
+                for m_ in (t_[1] if t_[0] == "join" else (t_,)):
+                    m_ = strip(m_) if m_[0] != "agg" else m_
+                    if is_agg(m_, "Some") and (bb, term_sig(m_)) not in [(b0, term_sig(t0)) for b0, t0 in rets]:
+                        rets.append((bb, m_))
+        if not need(ctx, P, rule, "%s(true, ..): page searches and Some(..) results" % short, len(fx) >= 2 and len(rets) >= 2):
+            continue
+        # every result is  key * PAGE + offset  with offset found in the page stored under that key
+        bad = []
+        for bb, t_ in rets:
+            v = unwrap_ovf(agg_field(t_, "0"))
+            ok_ = False
+            if v[0] == "bin" and v[1] == "Add":
+                for a, b in ((v[2], v[3]), (v[3], v[2])):
+                    a = unwrap_ovf(strip(a))
+                    key = None
+                    if a[0] == "bin" and a[1] == "Mul" and ev(ctx, a[3]) == page:
+                        key = a[2]
+                    elif a[0] == "call" and a[2].split("::")[-1] == "mul" and len(a[3]) == 2 and ev(ctx, a[3][1]) == page:
+                        key = a[3][0]
+                    site = term_has_call(b, fixed)
+                    if key is not None and site in fx:
+                        pg = fa.arg_origin(site, 0)
+                        gets = [x for x in subterms(pg) if isinstance(x, tuple) and len(x) == 4 and x[0] == "call" and x[2].endswith("::get") and len(x[3]) == 2 and path_of(strip(x[3][0])) == "self.pages"]
+                        ok_ = bool(gets) and term_sig(unwrap_ovf(strip(gets[0][3][1]))) == term_sig(unwrap_ovf(strip(key)))
+            if not ok_:
+                bad.append(term_str(v)[:110])
+        ctx.check(P, rule, "%s(true, ..) returns page * PAGE + offset for the page it searched" % short, not bad, "%d results, each key * %s + FixedBitfield::%s(pages[key], ..)" % (len(rets), page, short),
+                  "%s builds a result from a page key and an offset that do not belong together: %s" % (short, bad[:2]), key="C01|C01.R8|%s|result" % short)
+        # the other pages: filter by distance, sort, (reverse), search from the near end
+        flt = [s_ for s_, t_ in fa.calls() if (t_.get("callee") or "").endswith("Iterator::filter") and s_ in reg]
+        srt = [s_ for s_, t_ in fa.calls() if (t_.get("callee") or "").split("::")[-1] in ("sort", "sort_unstable") and s_ in reg]
+        rev = [s_ for s_, t_ in fa.calls() if (t_.get("callee") or "").split("::")[-1] == "reverse" and s_ in reg]
+        cmp_ok = False
+        if flt:
+            cl = strip(fa.arg_origin(flt[0], 1))
+            if cl[0] == "closure":
+                for b_ in ctx.crate.bodies.get(cl[1], []):
+                    fc = ctx.fa(b_)
+                    for _, _, rt in ret_assigns(fc):
+                        o, neg = canon_cond(rt)
+                        # canonical Lt(a, b): ascending search keeps keys with page < key, descending keys with key < page
+                        if o[0] == "bin" and o[1] == "Lt" and not neg:
+                            a_, b_2 = term_str(strip(o[2])), term_str(strip(o[3]))
+                            cmp_ok = (b_2 == "key" and a_ != "key") if up else (a_ == "key" and b_2 != "key")
+        loop_fx = [s_ for s_ in fx if any(s_ in body for _, body, _ in fa.loops())]
+        start_ok = bool(loop_fx) and all(ev(ctx, fa.arg_origin(s_, 2)) == (0 if up else bits - 1) for s_ in loop_fx)
+        # descending order: the sorted keys reversed in place (`keys.reverse()`) or walked backwards (`.iter().rev()`), exactly one of the two
+        revit = [s_ for s_, t_ in fa.calls() if (t_.get("callee") or "") == "std::iter::Iterator::rev" and s_ in reg]
+        n_rev = len(rev) + len(revit)
+        rev_ok = n_rev == 1 and all(fa.dominates(srt[0], x) and all(fa.dominates(x, s_) for s_ in loop_fx) for x in rev + revit) if srt else False
+        order_ok = bool(srt) and bool(loop_fx) and all(fa.dominates(srt[0], s_) for s_ in loop_fx) and ((n_rev == 0) if up else rev_ok)
+        ctx.check(P, rule, "%s(true, ..) visits the other pages nearest first" % short, cmp_ok and order_ok and start_ok,
+                  "keys %s the page of the position, sorted%s, each searched from bit %s" % ("beyond" if up else "below", "" if up else " and reversed", 0 if up else bits - 1),
+                  "%s: filter %s, sort/reverse order %s, start bit %s — a nearer held block in another page can be passed over, and clear then deletes its bytes" % (short, "ok" if cmp_ok else "WRONG", "ok" if order_ok else "WRONG", "ok" if start_ok else "WRONG"),
+                  key="C01|C01.R8|%s|page order" % short)
+
+
 def path_tail(t):
     t = strip(t)
     return t[2] if t[0] == "field" else None
@@ -462,7 +543,15 @@ def r10(ctx):
                   "byte_range assembles %s" % {k: term_str(v)[:70] for k, v in ws.items()}, key="C01|C01.R10|byte_range|assembly")
 
 
-RULES = [r1, r2, r3, r4, r5, r6, r7, r8, r9, r10]
+def r11(ctx):
+    """reopen replays the entries that are current: which entries count as current is decided by the
+    header bits Oplog::open (and a new log's creation) remember for the slot whose header is used —
+    with the wrong bits the acknowledged operations still in the log are skipped as stale (C07.R5)"""
+    from . import c07
+    c07.r5(ctx, P, "C01.R11")
+
+
+RULES = [r1, r2, r3, r4, r5, r6, r7, r8, r8b, r9, r10, r11]
 EXPLANATION = ("C01 (log contents equal an append-only list model across reopen): decides the replay codec agreement of the oplog Entry — each optional section is decoded under the flag bit it was "
                "encoded with, flags 1/2/4/8, same presence conditions in size and encode (R1); replay completeness — every field of Entry reaches its consumer inside the replay loop of Hypercore::new, the "
                "rebuilt changeset is completed, copied into the header and committed, entries are walked in log order, and whether a replay consumer runs for an entry depends only on the entry field it consumes — never on another field such as tree_upgrade (R2); the read gate — every storage read of get() is dominated by bitfield.get(index), the "
